@@ -120,8 +120,10 @@ CtlOk(p) ==
     THEN FixedReqLen(Cmd(p)) = 0 \/ DataLen(p) = FixedReqLen(Cmd(p))
     ELSE CcByte(p) = 0 /\ (FixedRespLen(Cmd(p)) = 0 \/ DataLen(p) = FixedRespLen(Cmd(p)))
 
-WellFormed(p) == /\ ~TooShort(p) /\ HdrOk(p) /\ PecOk(p)
-                 /\ (IsCtl(p) => CtlOk(p))
+(* the K-variants take k = PecOk(p), computed once per packet by the caller *)
+WellFormedK(p, k) == /\ ~TooShort(p) /\ HdrOk(p) /\ k
+                     /\ (IsCtl(p) => CtlOk(p))
+WellFormed(p) == WellFormedK(p, PecOk(p))
 
 Span(p) == IF IsCtl(p)
            THEN [lo |-> IF Rq(p) = 1 THEN 11 ELSE 12, hi |-> Len(p) - 1]
@@ -133,9 +135,9 @@ Claimed(p) == ~TooShort(p) /\ ~IsUnclaimedResp(p)
 
 (* an error value (type t, error e, completion code c) names a condition    *)
 (* that holds of p                                                           *)
-Truthful(p, t, e, c) ==
+TruthfulK(p, t, e, c, k) ==
     /\ t = MT_INVALID => ~HdrOk(p)
-    /\ e = "InvalidPEC" => ~PecOk(p)
+    /\ e = "InvalidPEC" => ~k
     /\ e = "InvalidRequestDataLength" =>
           /\ HdrOk(p) /\ IsCtl(p) /\ Len(p) >= 12
           /\ LET fx == IF Rq(p) = 1 THEN FixedReqLen(Cmd(p)) ELSE FixedRespLen(Cmd(p))
@@ -147,12 +149,15 @@ Truthful(p, t, e, c) ==
               "InvalidControlHeader", "Unknown", "CtlUnknown"}
 
 (* the decoder's outcome r = [kind, type, lo, hi, err, cc] is one C09 allows *)
-DecodeAllowed(p, r) ==
+Truthful(p, t, e, c) == TruthfulK(p, t, e, c, PecOk(p))
+
+DecodeAllowedK(p, r, k) ==
     IF ~Claimed(p)
-    THEN (r.kind = "ok" => PecOk(p))                    \* C02 still binds
-    ELSE IF WellFormed(p)
+    THEN (r.kind = "ok" => k)                           \* C02 still binds
+    ELSE IF WellFormedK(p, k)
          THEN r.kind = "ok" /\ r.type = TypeOf(p) /\ r.lo = Span(p).lo /\ r.hi = Span(p).hi
-         ELSE r.kind = "err" /\ Truthful(p, r.type, r.err, r.cc)
+         ELSE r.kind = "err" /\ TruthfulK(p, r.type, r.err, r.cc, k)
+DecodeAllowed(p, r) == DecodeAllowedK(p, r, PecOk(p))
 
 (* ------------------------- decoder, operational ------------------------- *)
 ROk(t, lo, hi, dv) == [kind |-> "ok",  type |-> t, lo |-> lo, hi |-> hi, err |-> "", cc |-> 0, dev |-> dv]
@@ -166,14 +171,14 @@ ShortOutcome(O) == IF "SHORT_INPUT" \in O THEN RPanic("SHORT_INPUT") ELSE RErr(M
 ReqTablePanics(cmd)  == cmd >= 9
 RespTablePanics(cmd) == cmd = 7 \/ cmd >= 10
 
-DecControl(p, O) ==
+DecControl(p, O, k) ==
     LET L == Len(p)   M == L - 9 IN
     IF M < 2 THEN ShortOutcome(O)
     ELSE IF Rq(p) = 1 THEN
         IF ReqTablePanics(Cmd(p)) /\ "LEN_TABLE_PANIC" \in O THEN RPanic("LEN_TABLE_PANIC")
         ELSE LET fx == FixedReqLen(Cmd(p)) IN
              IF M < 3 THEN ShortOutcome(O)
-             ELSE IF ~PecOk(p) THEN RErr(MT_CONTROL, "InvalidPEC", 0, {})
+             ELSE IF ~k THEN RErr(MT_CONTROL, "InvalidPEC", 0, {})
              ELSE IF fx > 0 /\ L - 12 # fx THEN RErr(MT_CONTROL, "InvalidRequestDataLength", 0, {})
              ELSE ROk(MT_CONTROL, 11, L - 1, {})
     ELSE
@@ -187,19 +192,19 @@ DecControl(p, O) ==
                        IF Cmd(p) = 2 THEN 3 ELSE LibRespLen(Cmd(p))
                  dv == IF Cmd(p) = 2 /\ "GETEID_RESP_LEN" \in O THEN {"GETEID_RESP_LEN"} ELSE {} IN
              IF M < 4 THEN ShortOutcome(O)
-             ELSE IF ~PecOk(p) THEN RErr(MT_CONTROL, "InvalidPEC", 0, {})
+             ELSE IF ~k THEN RErr(MT_CONTROL, "InvalidPEC", 0, {})
              ELSE IF fx > 0 /\ L - 13 # fx THEN RErr(MT_CONTROL, "InvalidRequestDataLength", 0, dv)
              ELSE ROk(MT_CONTROL, 12, L - 1, dv)
 
-DecBody(p, O) ==
+DecBody(p, O, k) ==
     LET L == Len(p) IN
     IF L < 8 THEN ShortOutcome(O)
     ELSE IF ~TransportValid(SubSeq(p, 5, 8), 1) THEN RErr(MT_INVALID, "Unknown", 0, {})
     ELSE IF L = 8 THEN ShortOutcome(O)
     ELSE IF ~BodyHdrValid(<< p[9] >>) THEN RErr(MT_INVALID, "Unknown", 0, {})
     ELSE LET t == TypeOf(p) IN
-      IF t = MT_CONTROL THEN DecControl(p, O)
-      ELSE IF ~PecOk(p) THEN RErr(t, "InvalidPEC", 0, {})
+      IF t = MT_CONTROL THEN DecControl(p, O, k)
+      ELSE IF ~k THEN RErr(t, "InvalidPEC", 0, {})
       ELSE IF L = 9 THEN ShortOutcome(O)
       ELSE IF t = MT_IANA /\ "IANA_SLICE" \in O THEN
            (IF L = 10 THEN RPanic("IANA_SLICE") ELSE ROk(t, 9, L - 2, {"IANA_SLICE"}))
@@ -207,10 +212,11 @@ DecBody(p, O) ==
 
 (* With SHORT_INPUT closed, every too-short input is rejected up front; the  *)
 (* ShortOutcome arms of DecBody are then unreachable.                        *)
-Dec(p, O) ==
+DecK(p, O, k) ==
     IF "SHORT_INPUT" \notin O /\ TooShort(p)
     THEN RErr(MT_INVALID, "Unknown", 0, {})
-    ELSE DecBody(p, O)
+    ELSE DecBody(p, O, k)
+Dec(p, O) == DecK(p, O, PecOk(p))
 
 (* ------------------------------ length probe ------------------------------ *)
 (* for inputs of at least three bytes; r = [kind, len, type] *)
